@@ -22,6 +22,7 @@
   every collision pattern and every history.
 -/
 import QlibcModel.HashArr.Walk
+import QlibcModel.Shapes.Harr
 
 namespace Qlibc.Props.C06
 open Qlibc Qlibc.HashArr Qlibc.HashArr.Spec
